@@ -387,6 +387,30 @@ func c03Bound(c *Ctx, r *Report) {
 				} else if why, ok := descentLoop(l); ok {
 					r.add("C03.BOUND", key, pos, Discharged, "descent loop: "+why)
 				} else if why, ok := reviewedLoops[fnName(fn)]; ok {
+					if fn.Name() == "readByte" {
+						// the reviewed argument covers exactly one way round the loop: Read returned (0, nil). Every back edge
+						// must be taken only when the read reported no error.
+						okRetry := true
+						at := pos
+						for _, lt := range l.latches {
+							gs := edgeGuards(lt, l.head)
+							errNil := false
+							for _, g := range gs {
+								g = normGuard(g)
+								if v, eq, isN := nilCmp(g.cond); isN && isErrorType(v.Type()) && eq == g.val {
+									errNil = true
+								}
+							}
+							if !errNil {
+								okRetry = false
+								at = valPosInstr(lt)
+							}
+						}
+						if !okRetry {
+							r.add("C03.BOUND", key, at, Violated, "the read is retried on a path where the reader returned an error: a reader that keeps failing (a deadline that has passed, a closed connection reporting itself temporary) makes every parse entry point spin forever")
+							continue
+						}
+					}
 					r.add("C03.BOUND", key, pos, Discharged, "reviewed: "+why)
 				} else if why, ok := reviewedLoops[fnName(parentOf(fn))]; ok {
 					r.add("C03.BOUND", key, pos, Discharged, "reviewed: "+why)
@@ -699,7 +723,146 @@ func c03Table(c *Ctx, r *Report) {
 
 // ---- REFLECT -------------------------------------------------------------------------
 
+// c03RValid: methods of reflect.Value that panic on the zero Value (Type, Convert, Interface, Elem, Field,
+// Index, Len, ...) are applied to a Value made by reflect.ValueOf(x) from an interface value x only where
+// IsValid() has been established, or x has been compared with nil: ValueOf(nil) is the zero Value, and an
+// omitted or null argument is exactly a nil interface.
+func c03RValid(c *Ctx, r *Report) {
+	r.rule("C03.RVALID", "a reflect.Value obtained from reflect.ValueOf(<interface value>) is used with a method that panics on the zero Value only under IsValid() == true or after a nil test of the interface value")
+	panicky := map[string]bool{"Type": true, "Convert": true, "Interface": true, "Elem": true, "Field": true, "FieldByName": true, "FieldByNameFunc": true, "Index": true, "Len": true, "MapIndex": true, "MapKeys": true, "Call": true, "Method": true, "NumField": true, "NumMethod": true, "IsNil": true, "Set": true, "String": false, "Kind": false, "IsValid": false}
+	a := c.anchors()
+	n := 0
+	var fns []*ssa.Function
+	for f := range a.reach {
+		if c.inPkg(f) {
+			fns = append(fns, f)
+		}
+	}
+	sort.Slice(fns, func(i, j int) bool { return fnName(fns[i]) < fnName(fns[j]) })
+	for _, fn := range fns {
+		k := 0
+		for _, ci := range callsIn(fn) {
+			f := calleeObj(ci)
+			if f == nil || f.Pkg() == nil || f.Pkg().Path() != "reflect" || recvTypeName(f) != "Value" || !panicky[f.Name()] {
+				continue
+			}
+			recv := callRecv(ci)
+			if recv == nil {
+				continue
+			}
+			// does the receiver (through phis) come from ValueOf of a possibly-nil interface value?
+			leaves, _ := phiLeaves(recv)
+			for _, lf := range leaves {
+				vo, ok := lf.val.(*ssa.Call)
+				if !ok || !isFuncCall(vo, "reflect", "ValueOf") || len(vo.Call.Args) != 1 {
+					continue
+				}
+				x := vo.Call.Args[0]
+				if mi, ok := x.(*ssa.MakeInterface); ok {
+					if _, isI := mi.X.Type().Underlying().(*types.Interface); !isI {
+						if _, isP := mi.X.Type().Underlying().(*types.Pointer); !isP {
+							continue // a concrete non-pointer value: never the zero Value
+						}
+					}
+					x = mi.X
+				}
+				n++
+				k++
+				gs := blockGuards(ci.Block())
+				if lf.pred != nil {
+					gs = append(gs, edgeGuards(lf.pred, lf.phi.Block())...)
+				}
+				ok2 := false
+				for _, g := range gs {
+					g = normGuard(g)
+					if call, isCall := g.cond.(*ssa.Call); isCall && g.val {
+						if cf := calleeObj(call); cf != nil && cf.Name() == "IsValid" && cf.Pkg() != nil && cf.Pkg().Path() == "reflect" {
+							if rv := callRecv(call); rv != nil {
+								ls2, _ := phiLeaves(rv)
+								for _, l2 := range ls2 {
+									if l2.val == ssa.Value(vo) {
+										ok2 = true
+									}
+								}
+								if sameVal(rv, recv) {
+									ok2 = true
+								}
+							}
+						}
+					}
+					if guardSaysNonNil(g, x) || guardSaysNonNil(g, vo.Call.Args[0]) {
+						ok2 = true
+					}
+					// Kind() == <a kind other than Invalid>: the zero Value has kind Invalid
+					if bo, isBO := g.cond.(*ssa.BinOp); isBO && bo.Op == token.EQL && g.val {
+						for _, side := range [][2]ssa.Value{{bo.X, bo.Y}, {bo.Y, bo.X}} {
+							call, isCall := side[0].(*ssa.Call)
+							k, isK := side[1].(*ssa.Const)
+							if !isCall || !isK || k.Value == nil || k.Int64() == 0 {
+								continue
+							}
+							if cf := calleeObj(call); cf != nil && cf.Name() == "Kind" && cf.Pkg() != nil && cf.Pkg().Path() == "reflect" {
+								if rv := callRecv(call); rv != nil {
+									ls2, _ := phiLeaves(rv)
+									for _, l2 := range ls2 {
+										if l2.val == ssa.Value(vo) {
+											ok2 = true
+										}
+									}
+								}
+							}
+						}
+					}
+				}
+				if provenNonNil(x, ci.Block(), 0) {
+					ok2 = true
+				}
+				// a case clause listing several kinds: every edge into it comes from a successful Kind() == k test
+				for d := ci.Block(); d != nil && !ok2; d = d.Idom() {
+					if len(d.Preds) < 2 {
+						continue
+					}
+					all := true
+					for _, p := range d.Preds {
+						okEdge := false
+						if len(p.Instrs) > 0 {
+							if ifi, isIf := p.Instrs[len(p.Instrs)-1].(*ssa.If); isIf && p.Succs[0] == d {
+								if bo, isBO := ifi.Cond.(*ssa.BinOp); isBO && bo.Op == token.EQL {
+									call, isCall := bo.X.(*ssa.Call)
+									k, isK := bo.Y.(*ssa.Const)
+									if isCall && isK && k.Value != nil && k.Int64() != 0 {
+										if cf := calleeObj(call); cf != nil && cf.Name() == "Kind" && cf.Pkg() != nil && cf.Pkg().Path() == "reflect" {
+											if rv := callRecv(call); rv != nil {
+												ls2, _ := phiLeaves(rv)
+												for _, l2 := range ls2 {
+													if l2.val == ssa.Value(vo) {
+														okEdge = true
+													}
+												}
+											}
+										}
+									}
+								}
+							}
+						}
+						if !okEdge {
+							all = false
+						}
+					}
+					if all {
+						ok2 = true
+					}
+				}
+				r.check("C03.RVALID", fmt.Sprintf("%s: reflect Value.%s #%d on ValueOf(%s) only when valid", fnName(fn), f.Name(), k, shortPath(vpath(x))), ci.Pos(), ok2,
+					"reflect.ValueOf of a nil interface is the zero Value and this method panics on it: a null or omitted value reaching this point takes the process down")
+			}
+		}
+	}
+	r.floor("C03.RVALID", "uses of reflect.ValueOf results with methods that panic on the zero Value", n, 1)
+}
+
 func c03Reflect(c *Ctx, r *Report) {
+	c03RValid(c, r)
 	a := c.anchors()
 	if a.reflArgs == nil || a.reflectRes == nil {
 		r.undecided("C03.REFLECT", "anchor: reflection argument builder", token.NoPos, "not found")
